@@ -105,6 +105,43 @@ Theorem C16_cursor_monotone_partial : forall md mp mr,
 Proof. exact (fun md mp mr a b c => conj eq_refl (conj eq_refl (cursor_monotone_sweep md mp mr a b c))). Qed.
 Print Assumptions C16_cursor_monotone_partial.
 
+(* Unbounded: for ALL sorted stored-key and pending-key sequences and every
+   skip set that covers the pending keys (skip = removed-or-pending), the
+   complete First/Next* walk of the cursor algorithm reports exactly the sorted
+   merge -- pending keys shadow stored ones, skipped stored keys never appear --
+   followed by exhaustion; [m] is characterised extensionally by
+   [merged_keys].  Forward-only and backward-only walks separately; a walk
+   that reverses is the known finding above. *)
+Theorem C16_cursor_forward_walk : forall db pend skip m n,
+  ksorted db -> ksorted pend -> (forall k, In k pend -> skip k = true) -> merged_keys db pend skip m ->
+  cur_run db pend skip cur_init (CFirst :: repeat CNext n) = spec_run m None (CFirst :: repeat CNext n).
+Proof. exact cursor_forward_walk. Qed.
+Print Assumptions C16_cursor_forward_walk.
+
+Theorem C16_cursor_backward_walk : forall db pend skip m n,
+  ksorted db -> ksorted pend -> (forall k, In k pend -> skip k = true) -> merged_keys db pend skip m ->
+  cur_run db pend skip cur_init (CLast :: repeat CPrev n) = spec_run m None (CLast :: repeat CPrev n).
+Proof. exact cursor_backward_walk. Qed.
+Print Assumptions C16_cursor_backward_walk.
+
+(* Non-vacuity of the hypotheses: stored 1,3,ff with 3 removed, pending 2,3\0;
+   the merge is 1,2,3\0,ff and both walks report it. *)
+Example C16_cursor_walk_nonvacuous :
+  let db := [[1]; [3]; [255]] in let pend := [[2]; [3; 0]] in
+  let skip := fun k => existsb (keqb k) [[3]; [2]; [3; 0]] in
+  let m := [[1]; [2]; [3; 0]; [255]] in
+  ksorted db /\ ksorted pend /\ (forall k, In k pend -> skip k = true) /\ merged_keys db pend skip m /\
+  cur_run db pend skip cur_init (CFirst :: repeat CNext 5) =
+    [Some [1]; Some [2]; Some [3; 0]; Some [255]; None; None] /\
+  cur_run db pend skip cur_init (CLast :: repeat CPrev 5) =
+    [Some [255]; Some [3; 0]; Some [2]; Some [1]; None; None].
+Proof.
+  simpl. repeat split; auto; try (repeat constructor; fail).
+  - intros k [<-|[<-|[]]]; reflexivity.
+  - intros [<-|[<-|[<-|[<-|[]]]]]; first [left; simpl; tauto|right; split; [simpl; tauto|reflexivity]].
+  - intros [[<-|[<-|[]]]|[[<-|[<-|[<-|[]]]] H]]; simpl; try tauto; vm_compute in H; discriminate.
+Qed.
+
 (* Non-vacuity: a history with a reader that keeps its snapshot across a
    commit, a rollback, a flushing and a non-flushing commit is admissible, and
    the implementation model returns the expected values. *)
